@@ -154,8 +154,15 @@ fn hex(s: &str) -> String {
     fvh::util::hex_enc(s.as_bytes())
 }
 
+/// x == 666: the callback panics (single-thread memoizer only; the panic is caught by the caller and printed as
+/// `CBPANIC`) - a formatter that was constructed for this lookup must nevertheless stay cached
+pub const CB_PANIC: u32 = 666;
+
 fn callback(i: &Inst, x: u32) -> String {
     let _s = Section::enter();
+    if x == CB_PANIC {
+        panic!("callback panic");
+    }
     format!("{}/{}/{}/{}/{}", i.serial, i.ty, i.lang, i.arg, x)
 }
 
@@ -357,7 +364,17 @@ fn run_seq(conc: bool, body: &str) -> String {
             ["get", h, ty, arg, x, via] => match (canon_u32(h), parse_lookup(ty, arg, x, via)) {
                 (Some(h), Some(l)) => match handles.get(h as usize) {
                     Some(Some((hd, _))) => {
+                        if l.x == CB_PANIC && matches!(hd, Handle::Conc(_)) {
+                            outs.push("bad-op".to_string());
+                            continue;
+                        }
                         let r = match hd {
+                            Handle::Seq(m) if l.x == CB_PANIC => {
+                                match std::panic::catch_unwind(std::panic::AssertUnwindSafe(|| lookup_seq(m, &l))) {
+                                    Ok(r) => r,
+                                    Err(_) => Ok("CBPANIC".to_string()),
+                                }
+                            }
                             Handle::Seq(m) => lookup_seq(m, &l),
                             Handle::Conc(m) => lookup_conc(m, &l),
                         };
